@@ -68,6 +68,8 @@ void (*signal(int sig, void (*h)(int)))(int)
     sigaction(sig, &sa, NULL);
     return SIG_DFL;
 }
+struct itimerval;
+int setitimer(int which, const struct itimerval* nv, struct itimerval* ov) { return (int)ret(sc3(104, which, (long)nv, (long)ov)); }
 int raise(int sig) { return (int)ret(sc3(SYS_kill, getpid(), sig, 0)); }
 
 /* ------------------------------------------------------------------ strings */
@@ -287,6 +289,7 @@ int sscanf(const char* s, const char* fmt, ...)
 
 /* ------------------------------------------------------------------ process */
 void exit(int rc) { fflush(NULL); for (;;) sc3(SYS_exit_group, rc, 0, 0); }
+void _exit(int rc) { for (;;) sc3(SYS_exit_group, rc, 0, 0); }
 void abort(void) { fflush(NULL); raise(SIGABRT); exit(134); }
 void __vt_assert_fail(const char* e, const char* f, int l) { fprintf(stderr, "%s:%d: assertion failed: %s\n", f, l, e); raise(SIGABRT); exit(134); }
 void __stack_chk_fail(void) { abort(); }
